@@ -111,6 +111,16 @@ func c04Scenarios() []*c04Scenario {
 			return obsUpdate(res, err)
 		}}
 	}
+	delNone := func() *c04Op {
+		return &c04Op{name: "DeleteMany({n:{$lt:-5}})", write: true, owns: func(ev string) bool { return false },
+			run: func(w *world.World, ctx context.Context) string {
+				res, err := w.C("d", "c").DeleteMany(ctx, bD("n", bD("$lt", int32(-5))))
+				if err != nil {
+					return "err"
+				}
+				return fmt.Sprintf("deleted=%d", res.DeletedCount)
+			}}
+	}
 	delMany := func() *c04Op {
 		return &c04Op{name: "DeleteMany({n:{$gte:1}})", write: true, owns: func(ev string) bool { return strings.Contains(ev, `"operationType":"delete"`) },
 			run: func(w *world.World, ctx context.Context) string {
@@ -159,6 +169,7 @@ func c04Scenarios() []*c04Scenario {
 		{name: "S10 ReplaceOne vs $inc vs reader", setup: seed(d1), threads: [][]*c04Op{{repl("r")}, {inc("w", 10)}, {read()}}, bound: -1},
 		{name: "S11 insert vs DeleteMany vs count", setup: seed(d1, d2), threads: [][]*c04Op{{ins("i", 5)}, {delMany()}, {count()}}, bound: -1},
 		{name: "S12 transaction (two inserts) vs UpdateMany vs reader", setup: seed(d1), threads: [][]*c04Op{{ins("a", 2), ins("b", 3)}, {updMany("u")}, {read()}}, txn: []bool{true, false, false}, bound: -1},
+		{name: "S13 transaction (insert, then a delete matching nothing) vs reader", setup: seed(d1), threads: [][]*c04Op{{ins("a", 2), delNone()}, {read()}}, txn: []bool{true, false}},
 		{name: "S9 two threads sharing one session transaction", setup: seed(d1), threads: [][]*c04Op{{ins("x", 2)}, {ins("y", 3)}}, txn: []bool{true, true}},
 	}
 }
